@@ -99,8 +99,8 @@ NoScripts == cfg.scripted = <<>>
 GhostInit == [q2in |-> <<>>, unacked |-> <<>>, txed |-> <<>>, ackd |-> <<>>, pubidx |-> <<>>, npub |-> 0,
               seen |-> {}, connacks |-> <<>>, discd |-> {}, rm |-> <<>>, tam |-> <<>>, mps |-> <<>>,
               will |-> <<>>, pendw |-> <<>>, nowill |-> {}, willsent |-> {}, aliasOut |-> <<>>, aliasIn |-> <<>>,
-              expm |-> <<>>, tickR |-> 0, tickI |-> 0, dsdel |-> <<>>, resentOn |-> {},
-              sdr |-> {}, rdr |-> {}, clob |-> <<>>, wipedw |-> {}]
+              expm |-> <<>>, deadR |-> {}, deadI |-> {}, dsdel |-> <<>>, resentOn |-> {},
+              sdr |-> {}, rdr |-> {}, clob |-> <<>>, wipedw |-> {}, rpi |-> <<>>]
 
 (* ================================================================== publications of a step *)
 Qos2Open(c, pid) == pid \in Get(g.q2in, c, {})
@@ -362,23 +362,37 @@ J_C23(i) ==
     ForAll(DOMAIN e.out, LAMBDA k :
        ForAll(1..Len(e.out[k]), LAMBDA n :
           LET q == e.out[k][n] v == ConnRec(e.conns, k).v IN
-          Cat(<<If(q.wf # "", Cmp("C23." \o q.wf, k, ToString(q.t), q.rc)),
+          \* (refcodec's "v3-session-present" concerns the reserved CONNACK byte of MQTT 3.1, about which the property
+          \*  says nothing: not judged)
+          Cat(<<If(q.wf # "" /\ q.wf # "v3-session-present",
+                   Cmp("C23." \o q.wf \o ".t" \o ToString(q.t) \o (IF v < 5 THEN ".v3" ELSE ".v5"), k, ToString(q.t), q.rc)),
                 If(q.t = PUBLISH /\ (\E j \in 1..Len(q.topic) : Wild(q.topic[j])), Cmp("C23.wildcard-in-publish-topic", k, q.m, 0)),
+                LET mps == IF e.ev = "connect" /\ e.k = k THEN (IF e.a.v = 5 THEN e.a.mps ELSE 0) ELSE Get(g.mps, k, 0) IN
+                   If(mps > 0 /\ q.len > mps, Cmp("C23.exceeds-maximum-packet-size", k, ToString(q.t), q.len)),
+                LET rpi == IF e.ev = "connect" /\ e.k = k THEN e.a.rpi ELSE Get(g.rpi, k, -1) IN
+                   If(rpi = 0 /\ q.t \notin {PUBLISH, CONNACK, DISCONNECT} /\ (q.rs \/ q.up # <<>>), Cmp("C23.problem-information-not-allowed", k, ToString(q.t), 0)),
+                LET rri == IF e.ev = "connect" /\ e.k = k THEN e.a.rri ELSE -1 IN
+                   If(q.t = CONNACK /\ q.ri /\ rri # 1, Cmp("C23.response-information-not-requested", k, "2", 0)),
                 If(k \in g.discd, Cmp("C23.output-after-disconnect", k, ToString(q.t), 0)),
                 If(\E j \in 1..(n - 1) : e.out[k][j].t = DISCONNECT, Cmp("C23.output-after-disconnect", k, ToString(q.t), 0))>>)))
 
 (* ================================================================== C38 $SYS counters *)
+(* the difference "reported counter - actual count" must be 0; the step at which it CHANGES is reported  *)
+(* (a counter that drifted stays wrong, so later steps are not reported again)                        *)
+CountDrift(st) ==
+    [subscriptions |-> st.info.subscriptions - Cardinality({s \in Subs(st) : s.kind # "inline"}),
+     retained      |-> st.info.retained - Cardinality(RetainedSet(st)),
+     inflight      |-> st.info.inflight - Cardinality(UNION {{<<c.id, r.pid>> : r \in ToSet(c.inflight)} : c \in Clients(st)})]
 J_C38(i) ==
-    LET e == Trace[i] st == e.st IN
-    IF e.ev = "Config" \/ (\E c \in ToSet(e.conns) : ~c.done /\ ~c.eof /\ ~c.dropped /\ FALSE) THEN <<>> ELSE
-    LET nconn == Cardinality({c \in ToSet(e.conns) : ~c.done})
-        nsubs == Cardinality({s \in Subs(st) : s.kind # "inline"})
-        nret  == Cardinality(RetainedSet(st))
-        ninf  == Cardinality(UNION {{<<c.id, r.pid>> : r \in ToSet(c.inflight)} : c \in Clients(st)})
-    IN Cat(<<If(st.info.subscriptions # nsubs, Cmp("C38.subscriptions", "", e.ev, st.info.subscriptions - nsubs)),
-             If(st.info.retained # nret, Cmp("C38.retained", "", e.ev, st.info.retained - nret)),
-             If(st.info.inflight # ninf, Cmp("C38.inflight", "", e.ev, st.info.inflight - ninf)),
-             If(st.info.subscriptions < 0 \/ st.info.retained < 0 \/ st.info.inflight < 0 \/ st.info.connected < 0, Cmp("C38.negative", "", e.ev, 0))>>)
+    LET e == Trace[i] st == e.st d1 == CountDrift(st) d0 == CountDrift(Pre(i)) IN
+    IF e.ev = "Config" THEN <<>> ELSE
+    Cat(<<If(d1.subscriptions # d0.subscriptions, Cmp("C38.subscriptions-on-" \o e.ev, e.c, e.a.kind, d1.subscriptions - d0.subscriptions)),
+          If(d1.retained # d0.retained, Cmp("C38.retained-on-" \o e.ev, e.c, e.a.kind, d1.retained - d0.retained)),
+          If(d1.inflight # d0.inflight, Cmp("C38.inflight-on-" \o e.ev, e.c, e.a.kind, d1.inflight - d0.inflight)),
+          If(st.info.connected # Cardinality({c \in ToSet(e.conns) : ~c.done}) /\ e.gates = <<>> /\ e.a.until = "",
+             Cmp("C38.connected-on-" \o e.ev, e.c, e.a.kind, st.info.connected - Cardinality({c \in ToSet(e.conns) : ~c.done}))),
+          If((st.info.subscriptions < 0 /\ Pre(i).info.subscriptions >= 0) \/ (st.info.retained < 0 /\ Pre(i).info.retained >= 0)
+               \/ (st.info.inflight < 0 /\ Pre(i).info.inflight >= 0) \/ st.info.connected < 0, Cmp("C38.negative-on-" \o e.ev, e.c, e.a.kind, 0))>>)
 
 (* ================================================================== connect helpers *)
 Connacks(e)  == SelectSeq(OutOf(e, e.k), LAMBDA q : q.t = CONNACK)
@@ -410,10 +424,10 @@ ValidConnect(a) ==
     /\ (("will" \in DOMAIN a) => (a.will.qos <= cfg.max_qos /\ (a.will.retain => cfg.retain_avail = 1)
                                   /\ a.will.t # <<>> /\ a.will.m # "" /\ (\A n \in 1..Len(a.will.t) : ~Wild(a.will.t[n]))))
     /\ a.v >= cfg.min_proto
+(* a client is admitted iff ANY authentication hook allows it (the harness's base hook, the scripted ones) *)
 AuthAllows(a) ==
-    IF cfg.scripted # <<>> /\ (\E n \in 1..Len(cfg.scripted) : cfg.scripted[n].auth # "")
-    THEN \E n \in 1..Len(cfg.scripted) : cfg.scripted[n].auth = "allow"
-    ELSE cfg.auth \in {"allow", "acl"} /\ a.id \notin ToSet(cfg.deny_conn)
+    \/ (cfg.auth \in {"allow", "acl"} /\ a.id \notin ToSet(cfg.deny_conn))
+    \/ (\E n \in 1..Len(cfg.scripted) : cfg.scripted[n].auth = "allow")
 
 (* the abnormal end of connection k in this step (its will becomes due) *)
 AbnormalEndG(i, k) ==
@@ -534,11 +548,12 @@ GhostNextOf(i) ==
         wipedw |-> g.wipedw \cup (IF e.ev = "tick" /\ e.a.kind = "wills"
                                    THEN {k \in DOMAIN g.will : \E h \in Hooks(e) : h.h = "will_sent" /\ h.c = g.will[k].c /\ h.m # g.will[k].m}
                                    ELSE {}),
+        rpi |-> IF isConn THEN Put(g.rpi, e.k, IF e.a.v = 5 THEN e.a.rpi ELSE -1) ELSE g.rpi,
         rdr |-> g.rdr \cup (IF ok /\ e.ev = "pubrec" /\ e.a.rc < 128 THEN {e.k} ELSE {}),
         resentOn |-> g.resentOn \cup (IF isConn /\ (\E q \in ToSet(OutOf(e, e.k)) : q.t \in {PUBLISH, PUBREL}) THEN {e.k} ELSE {}),
         dsdel |-> [c0 \in ids |-> IF SessionEndsIn(i, c0) THEN {} ELSE Get(g.dsdel, c0, {}) \cup {r.pid : r \in DeferredDeleted(i, c0)}],
-        tickR |-> IF e.ev = "tick" /\ e.a.kind = "retained" THEN MaxOf(g.tickR, e.tick) ELSE g.tickR,
-        tickI |-> IF e.ev = "tick" /\ e.a.kind = "inflight" THEN MaxOf(g.tickI, e.tick) ELSE g.tickI]
+        deadR |-> g.deadR \cup (IF e.ev = "tick" /\ e.a.kind = "retained" THEN {m \in DOMAIN g.expm : g.expm[m] > 0 /\ g.expm[m] < e.tick} ELSE {}),
+        deadI |-> g.deadI \cup (IF e.ev = "tick" /\ e.a.kind = "inflight" THEN {m \in DOMAIN g.expm : g.expm[m] > 0 /\ g.expm[m] < e.tick} ELSE {})]
 
 (* ================================================================== C13 CONNACK / admission *)
 J_C13(i) ==
@@ -812,8 +827,16 @@ J_C24(i) ==
                             THEN e.out[k][CHOOSE j \in 1..(n - 1) : e.out[k][j].t = PUBLISH /\ e.out[k][j].alias = a /\ e.out[k][j].ts # "" /\ \A j2 \in (j + 1)..(n - 1) : ~(e.out[k][j2].t = PUBLISH /\ e.out[k][j2].alias = a /\ e.out[k][j2].ts # "")].ts
                             ELSE g.aliasOut[k][a]]
             IN Cat(<<If(q.alias > tam, Cmp("C24.alias-exceeds-client-maximum", k, q.m, q.alias)),
-                     If(q.ts = "" /\ q.alias = 0, Cmp("C24.empty-topic-without-alias", k, q.m, 0)),
-                     If(q.ts = "" /\ q.alias > 0 /\ q.alias \notin DOMAIN told, Cmp("C24.alias-never-bound-on-this-connection", k, q.m, q.alias)),
+                     If(q.ts = "" /\ q.alias = 0, IF e.ev = "connect" THEN Cmp("C24.aliased-publish-resent-on-new-connection", k, q.m, 0)
+                                                  ELSE Cmp("C24.empty-topic-without-alias", k, q.m, 0)),
+                     \* (an alias that exists only in the broker's outbound table - its first carrier was dropped, deferred
+                     \*  or sent on an earlier connection - is the signature of a recorded finding and has its own rule name)
+                     If(q.ts = "" /\ q.alias > 0 /\ q.alias \notin DOMAIN told,
+                        LET cid == ConnRec(e.conns, k).c
+                            tbl == IF HasClient(Pre(i), cid) THEN ToSet(ClientRec(Pre(i), cid).alias_out) ELSE {} IN
+                        IF e.ev = "connect" THEN Cmp("C24.aliased-publish-resent-on-new-connection", k, q.m, q.alias)
+                        ELSE IF \E pr \in tbl : pr[2] = q.alias THEN Cmp("C24.alias-bound-only-in-broker-table", k, q.m, q.alias)
+                        ELSE Cmp("C24.alias-never-bound-on-this-connection", k, q.m, q.alias)),
                      If(q.ts = "" /\ q.alias > 0 /\ q.alias \in DOMAIN told /\ q.m \in DOMAIN g.pubidx /\ told[q.alias] # g.pubidx[q.m].ts,
                         Cmp("C24.alias-resolves-to-wrong-topic", k, q.m, q.alias))>>))),
       \* inbound
@@ -837,8 +860,12 @@ J_C34(i) ==
       \* everything reported as sent is on the connection (same packets, same order)
       ForAll(DOMAIN e.sent \cup DOMAIN e.out, LAMBDA k :
          LET rep == IF k \in DOMAIN e.sent THEN e.sent[k] ELSE <<>>
-             wire == [n \in 1..Len(OutOf(e, k)) |-> OutOf(e, k)[n].hex] IN
-         If(rep # wire /\ ~(HasConn(e.conns, k) /\ ConnRec(e.conns, k).dropped), Cmp("C34.reported-sent-differs-from-wire", k, "", Len(rep) - Len(wire)))),
+             wire == [n \in 1..Len(OutOf(e, k)) |-> ToString(OutOf(e, k)[n].t) \o ":" \o ToString(OutOf(e, k)[n].pid)] IN
+         LET cid == IF HasConn(e.conns, k) THEN ConnRec(e.conns, k).c ELSE ""
+             buffered == (HasClient(e.st, cid) /\ ClientRec(e.st, cid).outbuf > 0) \/ (HasClient(Pre(i), cid) /\ ClientRec(Pre(i), cid).outbuf > 0) IN
+         If(rep # wire /\ ~(HasConn(e.conns, k) /\ ConnRec(e.conns, k).dropped),
+            IF buffered THEN Cmp("C34.reported-sent-but-held-in-write-buffer", k, "", Len(rep) - Len(wire))
+            ELSE Cmp("C34.reported-sent-differs-from-wire", k, "", Len(rep) - Len(wire)))),
       \* nothing is stranded in a write buffer at quiescence
       ForAll({c \in Clients(e.st) : c.outbuf > 0 /\ ~c.closed}, LAMBDA c : Cmp("C34.bytes-stranded-in-buffer", c.id, "", c.outbuf)),
       \* an entitled, connected client that gets no copy has a drop reported to the hooks
@@ -936,12 +963,15 @@ J_C25(i) ==
       \* a message whose expiry lies before the last housekeeping time is never transmitted for the first time
       ForAll(AllClientIds(e), LAMBDA d :
          ForAll({q \in ToSet(PktsTo(e, d)) : q.t = PUBLISH /\ q.m \in DOMAIN g.expm /\ q.m \notin Get(g.txed, d, {})}, LAMBDA q :
-            LET lt == IF q.ret /\ e.ev = "subscribe" THEN g.tickR ELSE g.tickI IN If(g.expm[q.m] > 0 /\ g.expm[q.m] < lt, Cmp("C25.expired-message-delivered", d, q.m, lt - g.expm[q.m])))),
+            If(q.m \in (IF q.ret /\ e.ev = "subscribe" THEN g.deadR ELSE g.deadI), Cmp("C25.expired-message-delivered", d, q.m, IF q.ret THEN 1 ELSE 0)))),
       \* delivered Message Expiry Interval never exceeds the time remaining
-      ForAll(AllClientIds(e), LAMBDA d :
-         ForAll({q \in ToSet(PktsTo(e, d)) : q.t = PUBLISH /\ q.m \in DOMAIN g.expm /\ g.expm[q.m] > 0 /\ HasClient(pre, d) /\ ClientRec(pre, d).v = 5}, LAMBDA q :
-            Cat(<<If(q.mei < 0, Cmp("C25.expiry-interval-missing", d, q.m, 0)),
-                  If(q.mei >= 0 /\ q.mei > g.expm[q.m] - pre.now + 1 /\ q.mei > 1, Cmp("C25.expiry-interval-grew", d, q.m, q.mei - (g.expm[q.m] - pre.now)))>>)))
+      ForAll({k \in DOMAIN e.out : ConnRec(e.conns, k).v = 5}, LAMBDA k :
+         ForAll({q \in ToSet(e.out[k]) : q.t = PUBLISH /\ q.m \in DOMAIN g.expm /\ g.expm[q.m] > 0}, LAMBDA q :
+            Cat(<<If(q.mei < 0,
+                     IF \E r \in InflightOf(pre, ConnRec(e.conns, k).c) \cup InflightOf(e.st, ConnRec(e.conns, k).c) : r.pid = q.pid /\ r.m = q.m /\ r.expiry < 0
+                     THEN Cmp("C25.expiry-interval-missing-on-deferred-message", k, q.m, 0)
+                     ELSE Cmp("C25.expiry-interval-missing", k, q.m, 0)),
+                  If(q.mei >= 0 /\ q.mei > g.expm[q.m] - pre.now + 1 /\ q.mei > 1, Cmp("C25.expiry-interval-grew", k, q.m, q.mei - (g.expm[q.m] - pre.now)))>>)))
     >>)
 
 (* ================================================================== all rules of one line *)
